@@ -749,6 +749,9 @@ func (s *session) runSplitV1Pool() error {
 	w := s.workers[0]
 	_, b := l.Balance(w.rec)
 	big := b.Spendable.Div64(4).Mul64(3)
+	if big.IsZero() {
+		return errors.New("nothing spendable")
+	}
 	o := &Owned{H: l.NewHandle()}
 	o.T1 = types.Transaction{SiacoinOutputs: []types.SiacoinOutput{{Address: l.Addr, Value: big}}}
 	if ev := l.Fund1(w.rec, o, big, false, ""); !ev.OK {
@@ -771,6 +774,9 @@ func (s *session) runCrossVersion() error {
 	firstV2 := s.cfg.Stream%2 == 0
 	_, b := l.Balance(w.rec)
 	half := b.Spendable.Div64(2)
+	if half.IsZero() {
+		return errors.New("nothing spendable")
+	}
 	o := &Owned{H: l.NewHandle(), V2: firstV2}
 	outs := []types.SiacoinOutput{{Address: l.Addr, Value: half}}
 	var ev *Event
